@@ -17,11 +17,17 @@ requests, where the real interpreter's `last_err_location()` is compared field b
                           "the word at token `tok` fails with `e`", the VM fails with `e` and the debug-map entry
                           under the instruction pointer *after* the failure — what `last_err_location` reads — is
                           `tok`: inside conditionals, loops, case arms, called definitions, recursion;
+* `build_error_blames_a_word_or_the_end`, `unknown_word_blames_itself`, `open_structure_blames_the_end` — failures while a
+                          source is *built*: whatever compiling word fails, for whatever reason, the blamed token is the
+                          word being compiled at that moment (or the name it reads), never a literal, never a token of
+                          another source; an unknown word is blamed on itself; a structure left open is blamed on the
+                          end of the text (the empty token there);
 * `location_spec` (Props/C17loc.lean, by the lexer layer) — line, column and quoted line computed
                           from a token's byte offset are the true position of that token for any
                           mix of LF / CRLF / CR, tabs and multi-byte characters.
 -/
 import XehModel.Proofs.CompileOrigin
+import XehModel.Proofs.CompileBlame
 import XehModel.Proofs.VMRev2
 import XehModel.Props.C17loc
 import XehModel.Props.C01
@@ -53,6 +59,34 @@ theorem immediate_origin (s s' : CState) (w : String) (e : immediate s w = .ok s
 theorem word_origin (s s' : CState) (w : String) (e : buildWord s w = .ok s') :
     ∃ k, s'.dmap = s.dmap ++ List.replicate k s.lastTok :=
   let ⟨k, h, _⟩ := buildWord_dext s s' w e; ⟨k, h⟩
+
+/-! ### failures while a source is built -/
+
+/-- Whatever fails while a token list is compiled — an unknown word, an unbalanced closer, a `var` inside a conditional,
+    a missing name, a heap limit, anything any compiling word can raise — blames a **word of this source** (`idx` is the
+    index of its first token) **or the end of the text**; never a literal, never a position outside the source. -/
+theorem build_error_blames_a_word_or_the_end (toks : List Tok) (idx : Nat) (s : CState) (e : CErr) (sp : CState)
+    (h : compileToks toks idx s = .err e sp) :
+    e.tok = idx + toks.length ∨ (idx ≤ e.tok ∧ ∃ w, toks[e.tok - idx]? = some (.word w)) :=
+  Blame.compileToks_blames toks idx s e sp h
+
+/-- an unknown word (not a local of the definition being compiled, not in the dictionary) is blamed on itself, at once,
+    in whatever state and at whatever position the compiler reaches it -/
+theorem unknown_word_blames_itself (w : String) (rest : List Tok) (idx : Nat) (s : CState)
+    (hloc : ((CState.topFun s.flows).bind fun ff => CState.rposition w ff.locals) = none)
+    (hdict : s.dict.lookup w = none) :
+    compileToks (.word w :: rest) idx s = .err ⟨.unknownWord w.toList, idx⟩ { s with lastTok := idx } :=
+  Blame.unknown_word_blames_itself w rest idx s hloc hdict
+
+/-- a structure still open when the text ends is blamed on the end of the text -/
+theorem open_structure_blames_the_end (idx : Nat) (s : CState) (f : Flow) (fs : List Flow) (hf : s.flows = f :: fs) :
+    compileToks [] idx s = .err ⟨flowError f, idx⟩ { s with lastTok := idx } :=
+  Blame.open_structure_blames_the_end idx s f fs hf
+
+/-- the hypotheses are met: `1 foo 2` on an empty dictionary fails at token 1, which is the word `foo` -/
+example : ∃ sp, compileToks [.lit (.int 1), .word "foo", .lit (.int 2)] 0 {} = .err ⟨.unknownWord "foo".toList, 1⟩ sp := by
+  rw [compileToks]
+  exact ⟨_, unknown_word_blames_itself "foo" _ 1 _ (by simp [CState.emit, CState.topFun]) (by simp [CState.emit])⟩
 
 /-- a failing instruction leaves the instruction pointer on itself (every opcode advances only after
     success), for every opcode, every native word and every machine -/
